@@ -340,6 +340,14 @@ def check_case(case, use_fences=True):
                 if sql_again != sql:
                     _REUSED.pop(key, None)
                     return ("%s:reused-visitor-differs" % dname, "%r: fresh -> %s ; reused instance -> %s" % (text, sql, sql_again))
+                # one long-lived visitor whose table_alias attribute is assigned between uses
+                flip = _REUSED.setdefault((dname, "flip"), cls())
+                flip.table_alias = alias
+                sql_flip = flip.visit(a)
+                if sql_flip != sql:
+                    _REUSED.pop((dname, "flip"), None)
+                    return ("%s:alias-assigned-after-construction-differs" % dname,
+                            "%r alias=%r: fresh -> %s ; visitor with table_alias assigned later -> %s" % (text, alias, sql, sql_flip))
             except exceptions.ODataException as e:
                 return ("%s:refused:%s" % (dname, type(e).__name__), "%r -> %s: %s" % (text, type(e).__name__, e))
             except Exception as e:
